@@ -1,0 +1,20 @@
+import string
+from _string import formatter_field_name_split
+
+
+def field_names(format_str):
+    """
+    Yield the first part of the name of every replacement field, in the
+    order str.format uses them: an int for a numbered field, '' for an
+    auto-numbered one, a str for a named one ("x" for "{x.real}" and
+    "{x[0]}"). Fields nested in a format spec, as in "{:>{width}}", are
+    included; str.format allows one level of them.
+    """
+    for _, name, spec, _ in string.Formatter().parse(format_str):
+        if name is None:
+            continue
+        yield formatter_field_name_split(name)[0]
+        if spec:
+            for _, inner, _, _ in string.Formatter().parse(spec):
+                if inner is not None:
+                    yield formatter_field_name_split(inner)[0]
